@@ -436,3 +436,14 @@ def run(facts, rep, ctx):
     from . import round2
     round2.ef7b(facts, rep)
 
+
+
+_run_before_round5 = run
+
+
+def run(facts, rep, ctx):
+    """rules added after the fourth seeding round (rules/round5.py)"""
+    _run_before_round5(facts, rep, ctx)
+    from . import round2
+    for nm in ('custom', 'global_banded'):
+        round2.ao1(facts, rep, 'alignment::poa::Poa::<F>::' + nm, first=1, second=2, names=('the graph (reference base)', 'the query'), floor=2)
